@@ -20,6 +20,11 @@ var stdStubs map[string]stubFn
 // stubWrites: stubs that modify heap state (used by the loop write-set analysis).
 var stubWrites = map[string]bool{"sort.Strings": true, "sort.Slice": true, "(*sync.Pool).Put": false}
 
+// stubArrays: stubs that modify a known set of heap arrays only.
+var stubArrays = map[string][]string{}
+
+var builderArrays = []string{"F.strings.Builder.buf", "F.strings.Builder.buf.1", "F.strings.Builder.buf.2", "F.strings.Builder.buf.3", "alloc"}
+
 func init() {
 	intT := types.Typ[types.Int]
 	boolT := types.Typ[types.Bool]
@@ -107,7 +112,15 @@ func init() {
 			return []Val{{K: VTerm, T: x.enc.UF("strequalfold", SBool, a[0].T, a[1].T), Typ: boolT}}
 		},
 		"strings.ReplaceAll": func(x *Exec, fr *Frame, st *State, in ssa.Instruction, a []Val) []Val {
-			return []Val{{K: VTerm, T: x.enc.UF("strreplaceall", SStr, a[0].T, a[1].T, a[2].T), Typ: strT}}
+			r := x.enc.UF("strreplaceall", SStr, a[0].T, a[1].T, a[2].T)
+			// replacing one byte by one byte keeps the length
+			one := And(Eq(app(SInt, "slen", a[1].T), IntLit(1)), Eq(app(SInt, "slen", a[2].T), IntLit(1)))
+			st.assume(Implies(one, Eq(app(SInt, "slen", r), app(SInt, "slen", a[0].T))))
+			// ... and is a byte-wise substitution (documented behaviour of strings.ReplaceAll for non-overlapping one-byte matches)
+			st.assume(Implies(one, Term{fmt.Sprintf("(forall ((i!r Int)) (! (=> (and (<= 0 i!r) (< i!r (slen %s))) (= (sat %s i!r) (ite (= (sat %s i!r) (sat %s 0)) (sat %s 0) (sat %s i!r)))) :pattern ((sat %s i!r))))",
+				a[0].T.S, r.S, a[0].T.S, a[1].T.S, a[2].T.S, a[0].T.S, r.S), SBool}))
+			x.enc.trusted["assumed contract of strings.ReplaceAll (one byte for one byte)"] = true
+			return []Val{{K: VTerm, T: r, Typ: strT}}
 		},
 		"strings.ToUpper": func(x *Exec, fr *Frame, st *State, in ssa.Instruction, a []Val) []Val {
 			return []Val{{K: VTerm, T: x.enc.UF("strtoupper", SStr, a[0].T), Typ: strT}}
@@ -164,6 +177,16 @@ func init() {
 			ln := x.enc.Fresh("repeat.len", SInt)
 			st.assume(app(SBool, ">=", ln, IntLit(0)))
 			return []Val{{K: VSlice, Parts: []Val{TV(r), TV(IntLit(0)), TV(ln), TV(ln)}, Typ: sl}}
+		},
+		"slices.Insert": func(x *Exec, fr *Frame, st *State, in ssa.Instruction, a []Val) []Val {
+			// result: a slice of length len(s)+len(v) (contents not modelled); panics if i is out of range
+			sv, iv, vv := a[0], a[1].T, a[2]
+			x.safety(fr, st, in, "insert-index", And(app(SBool, "<=", IntLit(0), iv), app(SBool, "<=", iv, sv.Parts[2].T)))
+			r := st.newObject("slices.insert")
+			ln := app(SInt, "+", sv.Parts[2].T, vv.Parts[2].T)
+			cp := x.enc.Fresh("insert.cap", SInt)
+			st.assume(And(app(SBool, ">=", cp, ln), app(SBool, "<=", cp, IntLit(1<<48))))
+			return []Val{{K: VSlice, Parts: []Val{TV(r), TV(IntLit(0)), TV(ln), TV(cp)}, Typ: sv.Typ}}
 		},
 		"reflect.ValueOf": func(x *Exec, fr *Frame, st *State, in ssa.Instruction, a []Val) []Val {
 			// the reflect.Value is represented by the interface value it was made from
@@ -240,6 +263,94 @@ func init() {
 		st.assume(And(app(SBool, "<=", IntLit(0), r), app(SBool, "<=", r, app(SInt, "slen", a[0].T))))
 		return []Val{{K: VTerm, T: r, Typ: types.Typ[types.Int]}}
 	}
+	defer func() {
+		// strings.Builder: only the length of the accumulated text is modelled (field buf: a fresh
+		// backing array after every write, contents unconstrained); a nil receiver panics.
+		builderBuf := func(x *Exec, fr *Frame, st *State, in ssa.Instruction, recv Val) (get func() Term, set func(ln Term)) {
+			x.safety(fr, st, in, "nil", Not(Eq(recv.T, TNull)))
+			lnArr := func() Term { return st.hget("F.strings.Builder.buf.2", SArr(SRef, SInt)) }
+			get = func() Term { return Select(lnArr(), recv.T) }
+			set = func(ln Term) {
+				r := st.newObject("builder.buf")
+				cp := x.enc.Fresh("builder.cap", SInt)
+				st.assume(And(app(SBool, "<=", ln, cp), app(SBool, "<=", cp, IntLit(1<<48))))
+				for k, v := range []Term{r, IntLit(0), ln, cp} {
+					nm := compName("F.strings.Builder.buf", k)
+					srt := SInt
+					if k == 0 {
+						srt = SRef
+					}
+					st.hset(nm, Store(st.hget(nm, SArr(SRef, srt)), recv.T, v))
+				}
+			}
+			return
+		}
+		intT, strT, errT := types.Typ[types.Int], types.Typ[types.String], types.Universe.Lookup("error").Type()
+		grow := func(name string, add func(x *Exec, a []Val) Term, results func(n Term) []Val) {
+			stubArrays[name] = builderArrays
+			stdStubs[name] = func(x *Exec, fr *Frame, st *State, in ssa.Instruction, a []Val) []Val {
+				get, set := builderBuf(x, fr, st, in, a[0])
+				n := add(x, a)
+				old := get()
+				st.assume(And(app(SBool, "<=", IntLit(0), old), app(SBool, "<=", old, IntLit(1<<48))))
+				set(app(SInt, "+", old, n))
+				x.enc.trusted["assumed contract of strings.Builder (length only)"] = true
+				return results(n)
+			}
+		}
+		grow("(*strings.Builder).WriteString", func(x *Exec, a []Val) Term { return app(SInt, "slen", a[1].T) },
+			func(n Term) []Val { return []Val{{K: VTerm, T: n, Typ: intT}, {K: VTerm, T: TINil, Typ: errT}} })
+		grow("(*strings.Builder).WriteByte", func(x *Exec, a []Val) Term { return IntLit(1) },
+			func(n Term) []Val { return []Val{{K: VTerm, T: TINil, Typ: errT}} })
+		grow("(*strings.Builder).Write", func(x *Exec, a []Val) Term { return a[1].Parts[2].T },
+			func(n Term) []Val { return []Val{{K: VTerm, T: n, Typ: intT}, {K: VTerm, T: TINil, Typ: errT}} })
+		stdStubs["(*strings.Builder).Len"] = func(x *Exec, fr *Frame, st *State, in ssa.Instruction, a []Val) []Val {
+			get, _ := builderBuf(x, fr, st, in, a[0])
+			ln := get()
+			st.assume(And(app(SBool, "<=", IntLit(0), ln), app(SBool, "<=", ln, IntLit(1<<48))))
+			return []Val{{K: VTerm, T: ln, Typ: intT}}
+		}
+		stdStubs["(*strings.Builder).String"] = func(x *Exec, fr *Frame, st *State, in ssa.Instruction, a []Val) []Val {
+			get, _ := builderBuf(x, fr, st, in, a[0])
+			ln := get()
+			r := x.enc.Fresh("builder.string", SStr)
+			st.assume(And(app(SBool, "<=", IntLit(0), ln), app(SBool, "<=", ln, IntLit(1<<48)), Eq(app(SInt, "slen", r), ln)))
+			x.enc.trusted["assumed contract of strings.Builder (length only)"] = true
+			return []Val{{K: VTerm, T: r, Typ: strT}}
+		}
+		stubArrays["(*strings.Builder).Grow"] = builderArrays
+		stdStubs["(*strings.Builder).Grow"] = func(x *Exec, fr *Frame, st *State, in ssa.Instruction, a []Val) []Val {
+			get, set := builderBuf(x, fr, st, in, a[0])
+			x.safety(fr, st, in, "grow-negative", app(SBool, ">=", a[1].T, IntLit(0)))
+			set(get())
+			return nil
+		}
+		// utf8.DecodeRuneInString(s) = (r, n): n == 0 iff s is empty, otherwise 1 <= n <= min(4, len(s));
+		// n == 1 and r == s[0] for an ASCII first byte (documented behaviour of unicode/utf8)
+		stdStubs["unicode/utf8.DecodeRuneInString"] = func(x *Exec, fr *Frame, st *State, in ssa.Instruction, a []Val) []Val {
+			sv := a[0].T
+			r := x.enc.UF("ext.utf8.DecodeRuneInString.0", SInt, sv)
+			n := x.enc.UF("ext.utf8.DecodeRuneInString.1", SInt, sv)
+			ln := app(SInt, "slen", sv)
+			st.assume(And(app(SBool, "<=", IntLit(0), n), app(SBool, "<=", n, IntLit(4)), app(SBool, "<=", n, ln),
+				Eq(Eq(n, IntLit(0)), Eq(ln, IntLit(0))),
+				app(SBool, "<=", IntLit(0), r), app(SBool, "<=", r, IntLit(0x10FFFF))))
+			c0 := app(SInt, "sat", sv, IntLit(0))
+			st.assume(Implies(And(app(SBool, ">", ln, IntLit(0)), app(SBool, "<", c0, IntLit(128))), And(Eq(n, IntLit(1)), Eq(r, c0))))
+			st.assume(Implies(Eq(ln, IntLit(0)), Eq(r, IntLit(0xFFFD))))
+			x.enc.trusted["assumed contract of unicode/utf8.DecodeRuneInString"] = true
+			return []Val{{K: VTerm, T: r, Typ: types.Typ[types.Rune]}, {K: VTerm, T: n, Typ: types.Typ[types.Int]}}
+		}
+		// strings.Count(s, sep) for a non-empty sep: between 0 and len(s)
+		stdStubs["strings.Count"] = func(x *Exec, fr *Frame, st *State, in ssa.Instruction, a []Val) []Val {
+			r := x.enc.UF("ext.strings.Count", SInt, a[0].T, a[1].T)
+			ln := app(SInt, "slen", a[0].T)
+			st.assume(And(app(SBool, "<=", IntLit(0), r), Implies(app(SBool, ">", app(SInt, "slen", a[1].T), IntLit(0)), app(SBool, "<=", r, ln)),
+				app(SBool, "<=", r, app(SInt, "+", ln, IntLit(1)))))
+			x.enc.trusted["assumed contract of strings.Count"] = true
+			return []Val{{K: VTerm, T: r, Typ: types.Typ[types.Int]}}
+		}
+	}()
 	for _, name := range pureExterns {
 		name := name
 		stdStubs[name] = func(x *Exec, fr *Frame, st *State, in ssa.Instruction, a []Val) []Val {
